@@ -5,7 +5,7 @@ virtual loop against a scripted controller (mc.ctlsim.SchedCtl, the reference mo
 and change counter).  Every nondeterministic choice goes through the Chooser:
 
   * at every transmission: its fate  {ok, echo only (reply lost), nothing (transmission lost), reply twice,
-    reply late (after the retransmission timer)};
+    reply late (after the retransmission timer), reply very late (3 s: after the transfer)};
   * at the first transmission of every command (= between any two exchanges): an environment event
     {none, the controller's schedule for this / another zone changes (same or other fragment count),
      a fragment for this / another zone is overheard (reply to a third party), the caller abandons (cancel)}.
@@ -152,7 +152,7 @@ class SchedWorld:
                     loop.call_soon(c["task"].cancel)
         fate = "ok"
         if self.faults and is_sched and "fate" in self.dev:
-            fate = self.ch.choose([(("ok",), 0), (("lose_reply",), 1), (("lose_tx",), 1), (("dup_reply",), 1), (("late_reply",), 1)])[0]
+            fate = self.ch.choose([(("ok",), 0), (("lose_reply",), 1), (("lose_tx",), 1), (("dup_reply",), 1), (("late_reply",), 1), (("very_late_reply",), 1)])[0]
         if fate == "lose_tx":
             return
         loop.call_later(0.01, self._deliver, self.w.echo(tx, frame))
@@ -167,6 +167,9 @@ class SchedWorld:
             return
         if fate == "late_reply":
             loop.call_later(0.6, self._deliver, rp)
+            return
+        if fate == "very_late_reply":  # a straggler: it arrives when the transfer (and perhaps the next one) is long over
+            loop.call_later(3.0, self._deliver, rp)
             return
         loop.call_later(0.03, self._deliver, rp)
         if fate == "dup_reply":
@@ -558,7 +561,7 @@ def run(ctx) -> None:
         samples=total.samples[:3],
         rule="every schedule of each scenario with total deviation cost <= D (stateless DFS, prefix replay on a fresh real Gateway + "
         "Schedule/ScheduleSync + QoS FSM on the virtual loop, scripted controller as reference); choice points: fate of every transmission "
-        "{ok, reply lost, transmission lost, reply duplicated, reply late}, and at the first transmission of every 0006/0404 command an environment "
+        "{ok, reply lost, transmission lost, reply duplicated, reply late, reply very late}, and at the first transmission of every 0006/0404 command an environment "
         "event {none, schedule of any zone changes on the controller (same/other fragment count), any fragment of any zone overheard, a caller abandons}; "
         "scenario product: get/set x zones 01 02 HW x force_io x cold/cached(+changed, +aged past the 3-minute counter cache) x caller time-out around each "
         "exchange boundary x 2-3 concurrent transfers started at each exchange; after every episode: lock free, fault-free follow-up fetch of every zone",
